@@ -97,6 +97,15 @@ def body(chk: Check, *, mc_nodes: int, n_random: int, n_pairs: int, deep: int) -
     exp = djc.oracle(progs)
     states += djc.oracle.last_states
     st = djc.compare_batch(chk, progs, exp, djc.real_variant(progs, probes=True), "rand-collide", extra_check=ctx_check)
+    # alias names of fills (data= / default=) that collide with page / data / loop / with variables: inside the fill the
+    # alias wins over every other binding of that name, outside it nothing changes
+    ga = P.Gen(random.Random(chk.seed * 1000003 + 33), depth=deep, width=3, collide=True, alias_collide=True)
+    pa = [ga.program(4 * 10 ** 6 + i, P.MODES[i % 2]) for i in range(n_random // 2)]
+    expa = djc.oracle(pa)
+    states += djc.oracle.last_states
+    sta = djc.compare_batch(chk, pa, expa, djc.real_variant(pa, probes=True), "rand-alias-collide", extra_check=ctx_check)
+    chk.add("alias_collision_programs", len(pa) - sta["zone"])
+    chk.add("traces_validated_against_impl", len(pa) - sta["zone"])
     chk.add("traces_validated_against_impl", len(progs) - st["zone"])
     chk.sample({"random_program": djc.brief(progs[1]), "expected": exp[progs[1]["id"]]["out"]}, limit=3)
     # 2-run non-interference pairs (isolated): same closed page, two page contexts
